@@ -1,6 +1,7 @@
 package main
 
 import (
+	"os"
 	"fmt"
 	"go/token"
 	"go/types"
@@ -56,10 +57,11 @@ type State struct {
 	pc    Term
 	ghost map[string]Term
 	priv  []privRange // objects allocated by this activation that have not escaped
+	qinst []qInst     // universally quantified facts that hold on this path (see inst.go)
 }
 
 func (s *State) clone() *State {
-	n := &State{heap: make(map[string]Term, len(s.heap)), epoch: s.epoch, wm: s.wm, pc: s.pc, ghost: map[string]Term{}, priv: append([]privRange(nil), s.priv...)}
+	n := &State{heap: make(map[string]Term, len(s.heap)), epoch: s.epoch, wm: s.wm, pc: s.pc, ghost: map[string]Term{}, priv: append([]privRange(nil), s.priv...), qinst: append([]qInst(nil), s.qinst...)}
 	for k, v := range s.heap {
 		n.heap[k] = v
 	}
@@ -236,6 +238,9 @@ func (fx *FnExec) assume(st *State, fact Term) {
 
 func (fx *FnExec) extendPC(st *State, c Term) {
 	st.pc = fx.ctx.Define("pc", And(st.pc, c))
+	if fx.ctx.quant == 0 {
+		fx.noteQuantified(st, st.pc.S, c.S)
+	}
 }
 
 func (fx *FnExec) oblName(class, label string) string {
@@ -247,18 +252,28 @@ func (fx *FnExec) oblName(class, label string) string {
 	return base
 }
 
+var noSkolem = os.Getenv("GOVC_NOSKOLEM") != ""
+
 // oblige records an obligation pc => goal and then assumes goal.
 func (fx *FnExec) oblige(st *State, class, label string, goal Term, pos token.Pos) *Obligation {
 	if goal.S == "true" {
 		return nil
+	}
+	var sks [][2]string
+	sg := goal.S
+	if !noSkolem {
+		sg = fx.skolemise(goal.S, &sks)
 	}
 	o := &Obligation{
 		Name:   fx.oblName(class, label),
 		Class:  class,
 		Func:   fx.eng.shortName(fx.fn),
 		Prefix: fx.ctx.Mark(),
-		Goal:   And(st.pc, Not(goal)).S,
+		Goal:   And(st.pc, Not(Term{sg, SBool})).S,
 		ctx:    fx.ctx,
+	}
+	if len(sks) > 0 {
+		o.Extra = append(o.Extra, fx.instances(st, sks, o.Prefix)...)
 	}
 	if pos.IsValid() {
 		p := fx.eng.prog.Fset.Position(pos)
@@ -281,6 +296,7 @@ func (fx *FnExec) wellFormed(st *State, v Term, t types.Type) {
 	case *types.Slice:
 		fx.assume(st, And(Ge(SlBase(v), Int(0)), Le(SlBase(v), st.wm), Ge(SlOff(v), Int(0)), Ge(SlLen(v), Int(0)), Le(SlLen(v), SlCap(v)),
 			Implies(Eq(SlBase(v), Int(0)), Eq(SlCap(v), Int(0)))))
+		fx.arrTypeFact(st, v, u.Elem())
 	case *types.Interface:
 		fx.assume(st, And(Ge(IfVal(v), Int(0)), Le(IfVal(v), st.wm), Ge(IfTag(v), Int(0)),
 			Eq(Eq(IfTag(v), Int(0)), Eq(IfVal(v), Int(0)))))
@@ -300,6 +316,17 @@ func (fx *FnExec) wellFormed(st *State, v Term, t types.Type) {
 			}
 		}
 	}
+}
+
+// arrTypeFact: type safety — a backing array has one element type for its whole life, so slices with different
+// element types never share an array (no unsafe / reflect in the code under contract).
+func (fx *FnExec) arrTypeFact(st *State, v Term, elem types.Type) {
+	if _, isTP := types.Unalias(elem).(*types.TypeParam); isTP || strings.Contains(v.S, "|q!") || strings.Contains(st.pc.S, "|q!") {
+		return
+	}
+	at := fx.ctx.DeclFun("arrtype", []Sort{SInt}, SInt)
+	f := Implies(st.pc, Implies(Not(Eq(SlBase(v), Int(0))), Eq(Term{"(" + at + " " + SlBase(v).S + ")", SInt}, Int(int64(fx.eng.typeID(types.Unalias(elem)))))))
+	fx.ctx.RawOnce("arrtype:"+f.S, "(assert "+f.S+")") // also under a binder: the term has no bound variable
 }
 
 // ---- locations
